@@ -45,6 +45,8 @@ Next == \E a \in Actions : Step(a)
 Spec == Init /\ [][Next]_vars
 
 Bounded == s.step_count < lim + PostSteps
+(* the action that led to a state does not influence the future; action properties are still checked on every transition *)
+View == <<s, lim, last.type, last.reward10, last.ps>>
 
 (* ------------------------------ invariants ------------------------------ *)
 TypeOK == /\ ShapesOK(s) /\ s.step_count \in Nat /\ last.type \in {FIRST, MID, LAST}
@@ -61,26 +63,28 @@ InitWellFormed == s.step_count = 0 => WellFormedInstance(s)
         /\ (~Solved(s) => last'.reward10 = InvalidReward10)
         /\ (last'.type = LAST => (s'.step_count >= lim \/ Solved(s))) ]_vars
 (* C05 *) LegalIffSomethingMoves ==      \* the rules' notion of an ignored move is exactly "the configuration is unchanged"
-  \A a \in Actions : Legal(s, a) <=> StepTo(s, a).variable_grid # s.variable_grid
+  [][ last'.legal <=> s'.variable_grid # s.variable_grid ]_vars
 
 (* C07 *) PhysOK == PhysInv(s)
 (* C07 *) Conserved == [][ FixedConserved(s, s') /\ BoxesConserved(s, s') /\ MovesAtMostOneCell(s, s')
                            /\ Cardinality(TargetCells(s')) = NB ]_vars
 
-(* C09 *) Total == \A a \in Actions : PhysInv(StepTo(s, a)) /\ StepTo(s, a).step_count = s.step_count + 1
-(* C09 *) PushRule == \A a \in Actions :
-            LET d == Shift(AgentCell(s), a)  t == StepTo(s, a) IN
-            /\ (~Inside(d) \/ (Inside(d) /\ IsWall(s, d))) => A(t) = [A(s) EXCEPT !.step_count = @ + 1]
-            /\ Pushes(s, a) <=> BoxCells(t) # BoxCells(s)
-            /\ Pushes(s, a) => (AgentCell(t) = d /\ BoxCells(t) = (BoxCells(s) \ {d}) \cup {Shift(d, a)}
-                                /\ Shift(d, a) \notin BoxCells(s) /\ ~IsWall(s, Shift(d, a)))
-            /\ Walks(s, a) => (AgentCell(t) = d /\ BoxCells(t) = BoxCells(s))
-            /\ ~(Walks(s, a) /\ Pushes(s, a))
+(* C09 *) PushRule ==                     \* the documented case analysis, on the transition actually taken
+  [][ LET a == last'.a  d == Shift(AgentCell(s), a)  b == Shift(d, a) IN
+      /\ s'.step_count = s.step_count + 1
+      /\ (~Inside(d) \/ IsWall(s, d)) => A(s') = [A(s) EXCEPT !.step_count = @ + 1]
+      /\ Pushes(s, a) <=> BoxCells(s') # BoxCells(s)
+      /\ Pushes(s, a) => (AgentCell(s') = d /\ BoxCells(s') = (BoxCells(s) \ {d}) \cup {b}
+                          /\ b \notin BoxCells(s) /\ ~IsWall(s, b))
+      /\ (Inside(d) /\ ~IsWall(s, d) /\ IsBox(s, d) /\ ~Pushes(s, a)) =>
+            (~Inside(b) \/ IsWall(s, b) \/ IsBox(s, b)) /\ A(s') = [A(s) EXCEPT !.step_count = @ + 1]
+      /\ Walks(s, a) => (AgentCell(s') = d /\ BoxCells(s') = BoxCells(s))
+      /\ ~(Walks(s, a) /\ Pushes(s, a)) ]_vars
 (* C09 *) RewardRange ==
   IF Cfg.reward = "dense"
   THEN (last.type # FIRST /\ ~last.ps) => last.reward10 \in {-11, -1, 9, 109}       \* -1.1, -0.1, 0.9, 10.9: one box moves per step
   ELSE last.reward10 \in {0, 100}
-(* C09 *) BonusIffSolved == (last.type # FIRST) => ((last.reward10 >= 100) <=> Solved(s))
+(* C09 *) BonusIffSolved == (last.type # FIRST) => ((last.reward10 >= 50) <=> Solved(s))
 (* C09 *) SolvedEnds == (s.step_count > 0 /\ Solved(s)) => last.type = LAST
 
 (* C11 *) EndsExactlyAtLimit ==
